@@ -458,6 +458,24 @@ pub fn run(cli: &Cli, rep: &Report) {
     rep.assumption("LZIP tolerance applied exactly as the property states it (complete identical leading members followed by bytes not starting with the magic)");
     let items = {
         let mut v = c04_items();
+        // two concatenated XZ streams (multi-stream reader only), with 0 and 4 bytes of stream padding between them:
+        // the second stream's header, and the padding, are places no single-stream file has
+        {
+            let o = crate::codec::Opts::small();
+            let a = gen::build(&[gen::Seg::C(150)], 1);
+            let b = gen::build(&[gen::Seg::C(90)], 2);
+            for (check, pad) in [(1u8, 0usize), (4, 4), (10, 8)] {
+                let cont = Container::Xz { check, block: None, filters: vec![] };
+                if let (Ok(sa), Ok(sb)) = (crate::codec::encode(&cont, &o, &a, &[]), crate::codec::encode(&cont, &o, &b, &[])) {
+                    let mut bytes = sa.clone();
+                    bytes.extend(std::iter::repeat(0u8).take(pad));
+                    bytes.extend_from_slice(&sb);
+                    let mut input = a.clone();
+                    input.extend_from_slice(&b);
+                    v.push(Item { name: format!("xz-2str-c{check}-pad{pad}:{}", sa.len()), cont, opts: o, input, bytes, foreign: false });
+                }
+            }
+        }
         if thorough {
             v.extend(corpus::medium().into_iter().filter(|it| matches!(&it.cont, Container::Xz { check, .. } if *check != 0) || matches!(it.cont, Container::Lzip { .. })));
         }
@@ -474,7 +492,10 @@ pub fn run(cli: &Cli, rep: &Report) {
         |st, wi| {
             let it = &items[wi / 2];
             let structured = wi % 2 == 1;
+            // (first stream length, its content length) of the two-stream files
+            let two: Option<(usize, usize)> = it.name.strip_prefix("xz-2str-").and_then(|r| r.rsplit(':').next()).and_then(|n| n.parse().ok()).map(|n| (n, 150));
             let readers: &[Rd] = match it.cont {
+                Container::Xz { .. } if two.is_some() => &[Rd::XzMulti],
                 Container::Xz { .. } => &[Rd::XzMulti, Rd::XzSingle],
                 _ => &[Rd::Lzip],
             };
@@ -514,6 +535,13 @@ pub fn run(cli: &Cli, rep: &Report) {
                             }
                             if rd == Rd::Lzip && lzip_prefix_ok(it, &members, &ends, &m.bytes, &out) {
                                 continue;
+                            }
+                            if let Some((s1, c1)) = two {
+                                // the first stream alone, plus stream padding of a multiple of four, is itself a complete file
+                                let n = m.bytes.len();
+                                if n >= s1 && (n - s1) % 4 == 0 && m.bytes[..s1] == it.bytes[..s1] && m.bytes[s1..].iter().all(|b| *b == 0) && out == it.input[..c1] {
+                                    continue;
+                                }
                             }
                             let what = if out.is_empty() {
                                 "accepted as an empty file"
